@@ -18,7 +18,7 @@ Extraction "ugomodel.ml"
   wf_function
   call_compiled init_locals
   loads_ok
-  unpack shift_lines file_of add_lines
+  unpack shift_lines file_of add_lines source_pos
   json_valid encode_string
   callable_adapter_mode run_tuples repeat_model make_array_model strings_repeat_model pad_model err_negative err_too_large
   share_check
